@@ -37,6 +37,9 @@ pub fn named_terms() -> Vec<Term> {
             abs(app(Var(5), Var(1))),
         ),
         app(abs(app(Var(1), abs(Var(0)))), app(Var(0), abs(Var(2)))),
+        // indices beyond 32 bits crossing two binders
+        app(abs!(3, app!(Var(3), Var(1), Var(1 << 32))), abs(app(Var(1 << 32), Var((1 << 32) + 2)))),
+        app(abs(abs(app(Var(2), Var(2)))), Var(1 << 32)),
         app!(lambda_calculus::data::num::church::add(), 2.into_church(), 1.into_church()),
         app!(lambda_calculus::data::num::church::pred(), 2.into_church()),
         app!(lambda_calculus::data::num::church::fac(), 2.into_church()),
@@ -409,6 +412,51 @@ pub fn c05(ctx: &mut Ctx) {
     let (steps, cap) = if ctx.thorough { (10, 500) } else { (5, 300) };
     for t in &uni {
         ctx.count(bucket(size(t)));
+        // multi-step runs: "EVERY single step" also holds inside a run with a larger limit — the result of
+        // reduce(o, L) must be the term reached by L steps of the reference positional strategy (reference
+        // engine + reference selectors only; the implementation is not consulted for the expected trace)
+        for &o in [NOR, CBN, APP, CBV].iter() {
+            let mut rtrace = vec![t.clone()];
+            let mut complete = false; // the reference strategy selects nothing in the last term
+            for _ in 0..6 {
+                let cur = rtrace.last().unwrap();
+                let sel = match o {
+                    NOR => sel_lmo(cur),
+                    CBN => sel_cbn(cur),
+                    APP => sel_lmi(cur),
+                    _ => sel_lmi_weak(cur),
+                };
+                match sel {
+                    None => {
+                        complete = true;
+                        break;
+                    }
+                    Some(p) => {
+                        let n = contract_at(cur, &p).unwrap();
+                        if size(&n) > cap {
+                            break;
+                        }
+                        rtrace.push(n);
+                    }
+                }
+            }
+            let k = rtrace.len() - 1;
+            for l in [2usize, 3, 5] {
+                if l > k && !complete {
+                    continue;
+                }
+                let line = reduce_op(o, l, t);
+                let r = ctx.op(&line);
+                let e = l.min(k);
+                if e >= 2 {
+                    ctx.nontrivial(&line);
+                }
+                if parse_reduce(&r) != Some((e, rtrace[e].clone())) {
+                    ctx.fail(&format!("{}: a run with limit {} is not {} steps of the documented positional strategy", order_name(o), l, e), &[line]);
+                }
+                ctx.count("multi_step_runs");
+            }
+        }
         for &o in [NOR, CBN, APP, CBV, HSP].iter() {
             let tr = stepwise(ctx, t, o, steps, cap);
             if tr.broken {
